@@ -25,6 +25,7 @@ use std::time::Duration;
 
 const SEL: &str = "SELECT * FROM ks.t WHERE pk = ?";
 const INS: &str = "INSERT INTO ks.t (pk, a) VALUES (?, 1)";
+const INS2: &str = "INSERT INTO ks.t (pk, a) VALUES (?, 3)";
 
 /// column layouts the "schema" cycles through; values depend on the column NAME, so a
 /// row decoded with a stale layout shows wrong values or fails to decode
@@ -192,13 +193,17 @@ impl Handler for H14 {
                     }
                 }
             }
-            let unknown = statements.iter().any(|s| matches!(s, BatchStatement::Prepared { id, .. } if !rq.node.knows(id)));
-            if unknown {
+            // the node names the first statement of the batch it does not know
+            let unknown = statements.iter().find_map(|s| match s {
+                BatchStatement::Prepared { id, .. } if !rq.node.knows(id) => Some(id.clone()),
+                _ => None,
+            });
+            if let Some(unknown_id) = unknown {
                 if let Some(pk) = statements.iter().find_map(|s| match s {
                     BatchStatement::Prepared { values, .. } => Self::pk_of(values),
                     _ => None,
                 }) {
-                    self.record(&rq, pk, "BATCH", vec![], "UNPREPARED", None);
+                    self.record(&rq, pk, "BATCH", unknown_id, "UNPREPARED", None);
                 }
             }
         }
@@ -394,6 +399,14 @@ async fn run_hist(h: &Hist) -> HistOut {
     };
     let sel = Arc::new(sel);
     let ins = Arc::new(ins);
+    let ins2 = match session.prepare(INS2).await {
+        Ok(p) => Arc::new(p),
+        Err(e) => {
+            out.build_error = Some(format!("prepare: {e}"));
+            cluster.shutdown();
+            return out;
+        }
+    };
     let results: Arc<Mutex<Vec<OpResult>>> = Arc::new(Mutex::new(Vec::new()));
     let mut running: Vec<tokio::task::JoinHandle<()>> = Vec::new();
     let mut id_change_active = false;
@@ -423,7 +436,7 @@ async fn run_hist(h: &Hist) -> HistOut {
             }
             api => {
                 let pk = next_op() as i64;
-                let (caching, sel, ins, log, results) = (caching.clone(), sel.clone(), ins.clone(), log.clone(), results.clone());
+                let (caching, sel, ins, ins2, log, results) = (caching.clone(), sel.clone(), ins.clone(), ins2.clone(), log.clone(), results.clone());
                 let api = api.clone();
                 let after_id_change = id_change_active;
                 running.push(tokio::spawn(async move {
@@ -483,10 +496,25 @@ async fn run_hist(h: &Hist) -> HistOut {
                                 }
                             }
                             _ => {
+                                // shapes: [prepared, plain-with-values], [prepared, prepared], [prepared, prepared, plain-with-values]:
+                                // after an eviction the node may name one statement after the other as unknown
                                 let mut b = scylla::statement::batch::Batch::default();
                                 b.append_statement((*ins).clone());
-                                b.append_statement(scylla::statement::Statement::new("UPDATE ks.t SET a = 2 WHERE pk = ?"));
-                                session.batch(&b, ((pk,), (pk,))).await.map(|_| Vec::new()).map_err(|e| format!("{e}"))
+                                match pk % 3 {
+                                    0 => {
+                                        b.append_statement(scylla::statement::Statement::new("UPDATE ks.t SET a = 2 WHERE pk = ?"));
+                                        session.batch(&b, ((pk,), (pk,))).await.map(|_| Vec::new()).map_err(|e| format!("{e}"))
+                                    }
+                                    1 => {
+                                        b.append_statement((*ins2).clone());
+                                        session.batch(&b, ((pk,), (pk,))).await.map(|_| Vec::new()).map_err(|e| format!("{e}"))
+                                    }
+                                    _ => {
+                                        b.append_statement((*ins2).clone());
+                                        b.append_statement(scylla::statement::Statement::new("UPDATE ks.t SET a = 2 WHERE pk = ?"));
+                                        session.batch(&b, ((pk,), (pk,), (pk,))).await.map(|_| Vec::new()).map_err(|e| format!("{e}"))
+                                    }
+                                }
                             }
                         }
                     };
@@ -545,7 +573,8 @@ fn judge(o: &mut Outcome, h: &Hist, r: &HistOut) {
         for w in seen.windows(2) {
             if w[0].answered == "UNPREPARED" && w[1].kind == w[0].kind && w[1].node == w[0].node {
                 saw_unprepared = true;
-                let same = w[0].id == w[1].id && w[0].values == w[1].values && w[0].consistency == w[1].consistency && w[0].page_size == w[1].page_size && w[0].paging_state == w[1].paging_state && w[0].serial == w[1].serial && w[0].timestamp == w[1].timestamp;
+                // (for a BATCH the id field holds the statement the node named as unknown, not a request field)
+                let same = (w[0].kind == "BATCH" || w[0].id == w[1].id) && w[0].values == w[1].values && w[0].consistency == w[1].consistency && w[0].page_size == w[1].page_size && w[0].paging_state == w[1].paging_state && w[0].serial == w[1].serial && w[0].timestamp == w[1].timestamp;
                 if !same {
                     o.violation("c14:repeat-after-unprepared-differs", format!("{} of pk {}: the request repeated after UNPREPARED differs from the original in id/values/parameters", op.api, op.pk), replay.clone());
                 }
@@ -553,6 +582,12 @@ fn judge(o: &mut Outcome, h: &Hist, r: &HistOut) {
         }
         if saw_unprepared {
             o.class("reprepared-transparently");
+        }
+        {
+            let named: std::collections::BTreeSet<&Vec<u8>> = seen.iter().filter(|s| s.kind == "BATCH" && s.answered == "UNPREPARED").map(|s| &s.id).collect();
+            if named.len() >= 2 && op.outcome.is_ok() {
+                o.class("batch:several-statements-named-unknown-in-turn");
+            }
         }
         if op.api == "execute_unpaged" && op.pk % 3 == 0 {
             for s in seen.iter().filter(|s| s.kind == "EXECUTE") {
@@ -579,8 +614,15 @@ fn judge(o: &mut Outcome, h: &Hist, r: &HistOut) {
                     let un: Vec<&Seen> = seen.iter().filter(|s| s.answered == "UNPREPARED").collect();
                     let snapshot = r.log.snapshot();
                     let mut re_prepared = true;
+                    // the SAME statement must have been named twice by the same node: two different statements of
+                    // one batch, each evicted once, are no second eviction
+                    let same_twice = un.iter().enumerate().any(|(i, a)| un.iter().skip(i + 1).any(|b| a.node == b.node && a.id == b.id));
+                    if !same_twice {
+                        o.violation("c14:caller-saw-an-error", format!("{} of pk {} failed ({e}) although every statement the node named as unknown was named once only and every node can prepare it", op.api, op.pk), replay.clone());
+                        continue;
+                    }
                     for w in un.windows(2) {
-                        if w[0].node != w[1].node {
+                        if w[0].node != w[1].node || w[0].id != w[1].id {
                             continue;
                         }
                         let between = snapshot.iter().any(|l| {
@@ -762,7 +804,7 @@ pub fn run(ctx: &Ctx) -> Outcome {
             break;
         }
     }
-    for c in ["ext:metadata-id", "ext:none", "skip-metadata:on", "skip-metadata:off", "step:Exec", "step:ExecPaged", "step:ExecCaching", "step:Batch", "step:Evict", "step:EvictAll",
+    for c in ["ext:metadata-id", "ext:none", "skip-metadata:on", "skip-metadata:off", "step:Exec", "step:ExecPaged", "step:ExecCaching", "step:Batch", "batch:several-statements-named-unknown-in-turn", "step:Evict", "step:EvictAll",
         "step:SchemaChange", "step:IdChange", "explicit-timestamp-checked", "reprepared-transparently", "rows-verified", "id-change:caller-got-error", "metadata-id:latest-presented"] {
         out.require_class(c);
     }
